@@ -28,11 +28,12 @@ RULE = (
     "lattice data}; distinct by hash of the whole case (spec + data)."
 )
 ASSUMPTIONS = [
-    "X is float64 C-contiguous (layouts/dtypes are C09's workload)",
+    "X is float64 or integer-typed whole numbers, in any of the containers of the routes",
     "selectors reject 2-D targets in _validate_data, so y is None or 1-D",
     "per-pick scores are the selector's own (their correctness is C02/C07); here they only decide threshold claims",
     "steps after the candidates are numerically exhausted are classified as known finding K2, not judged for distinctness",
 ]
+RULE = RULE + " " + forms.RULE_SUFFIX
 
 DEFICIENT = ("lowrank", "dup_rows", "dup_cols", "lattice", "collinear")
 
